@@ -57,6 +57,22 @@ the same data / target / result having been used before, or on display / copy op
 ``GenerateHeader`` object between two calls.  A call in a documented convention that raises while its arguments
 are bound never reaches the call-boundary monitors; the driver reports it (``call_not_accepted``).
 
+Path targets: a name stands for the file the operating system finds under it when the call begins.  The monitors
+resolve every name themselves at that moment (``os.path.realpath``: links followed, '..' taken in the directory a
+link leads to, relative names under the working directory of that moment; ``os.stat`` identity; a descriptor on the
+file that stands there before a writing call) and judge THAT file: it must hold the document afterwards, also when
+the name is a symbolic link (to a file, to a file that does not exist yet, to another link), when the file has a
+second hard-linked name or is held open by a reader, and a load under any spelling of the name ('a/../a/f', through
+a linked directory and back up with '..', relative after a change of directory, the other hard link, a handle opened
+under a relative name) returns the table that file holds.  Names are taken character by character: '~', '$HOME',
+glob / format / URL characters, spaces, line ends, and characters that merely normalise (NFC / NFKC) to another name
+denote their own file.  The same holds for coordinate and dimension names.
+
+Objects used again: the data array handed to ``save_xye`` is what it was before the call; the same objects handed in
+again after the caller changed them in place give the table of the NEW contents; what ``load_xye`` returned earlier
+does not change when the caller overwrites a later result or when the target is written and read again.  The first
+call a fresh interpreter makes (only ``scippneutron.io.xye`` imported) gives what every other call gives.
+
 Nothing here calls scippneutron to obtain an expected value: expectations are the supplied
 arrays themselves (bytes) and a long-double square root.
 """
@@ -126,7 +142,19 @@ RULE = (
     'between, same handle twice, a path after a refused save, the loaded result saved again, load twice, load after a '
     'failed load) and 9 display / copy / pickle / comparison operations on GenerateHeader between calls; binned data '
     '(bin masks, event masks) among the refusals; one heavy table (2**17+7 rows quick, 2**20+7 thorough) on a shard '
-    'of its own.  distinct = distinct (accept/refuse class, target, '
+    'of its own; file-system forms of path targets, every one in every run (name = symbolic link to a file / to a file '
+    'that does not exist yet / to a link, link text absolute and relative; second hard-linked name; file held open by a '
+    'reader; <linked directory>/../name with another file where the text of the name collapses to, absolute, relative, '
+    'str and pathlib; a/../a/f, a//f, ./a/./f; through a linked directory and directly; relative names with the working '
+    'directory changed between the calls; a handle opened under a relative name before the directory changes; 46 names '
+    'with ~, $HOME, glob / format / URL characters, spaces, line ends, other scripts, and names not in NFC / NFKC form '
+    'next to a file under the normalised name; StringIO made with initial content (overwritten, appended to), StringIO / '
+    'w+ handle rewound after an earlier write), each saved and loaded under the same and under another spelling; 12 '
+    'coordinate / dimension names not in NFC / NFKC form next to a coordinate under the normalised name x coord= given / '
+    'deduced x which of the two is written; 2 / 3 / 4 rows (the 3 columns) and 49999 / 50000 / 50001 rows (chunk of the text '
+    'reader); the same data array saved again after values / variances / a slice of the coordinate / single elements were '
+    'changed in place; results scribbled over or followed by other calls; the first call of a fresh interpreter that '
+    'imported scippneutron.io.xye only (save to StringIO and path, load).  distinct = distinct (accept/refuse class, target, '
     'header class, n coords, coord= given, row band, value class, coordinate-state route, non-ASCII class; stream: target, '
     'header class, first / behind other content); trivial = ordinary values, generated header, one benign '
     'coordinate built from variables'
@@ -164,6 +192,11 @@ ASSUMPTIONS = [
     'the documented signatures define the calling conventions: save_xye(fname, da, *, coord, header), '
     'load_xye(fname, *, dim, unit, coord_unit, coord), each positional-or-keyword parameter either way; "str" '
     'includes its subclasses (numpy.str_, members of a (str, Enum)), which stand for their characters',
+    'a path target denotes the file the operating system finds under the name when the call begins (links followed, '
+    '".." resolved in the directory a link leads to, relative names under the current working directory); saving puts '
+    'the document into that file (a second hard-linked name and a reader that holds the file open see it), not into '
+    'another file that takes over the name. The file system keeps names that differ in any code point apart (checked per case)',
+    'binary file objects (BytesIO, handles opened in "b" mode) are outside "TextIO": not generated',
     'a written coordinate that carries variances of its own is neither in the list of refusals nor exactly '
     'representable: executed and counted. Binned data has no variances (scipp) and counts as "no variances"',
 ]
@@ -305,14 +338,18 @@ def decompress_tolerant(raw, suffix):
     return out
 
 
-def path_reader(p):
+def path_reader(p, fd=None):
     """read() -> the text under a path as its readers see it (bytes, one character per byte;
-    decompressed by file name as numpy does), None if there is no file."""
+    decompressed by file name as numpy does), None if there is no file.  With ``fd`` (a descriptor the
+    monitor opened on the file before a call): the content of THAT file, whatever the name points at now."""
     def read():
-        if not os.path.exists(p):
+        if fd is not None:
+            raw = os.pread(fd, os.fstat(fd).st_size, 0)
+        elif not os.path.exists(p):
             return None
-        with open(p, 'rb') as f:
-            raw = f.read()
+        else:
+            with open(p, 'rb') as f:
+                raw = f.read()
         for suffix in ('.gz', '.bz2', '.xz'):
             if p.endswith(suffix):
                 raw = decompress_tolerant(raw, suffix)
@@ -512,6 +549,14 @@ class Monitors:
                 return None
             stream = self.is_stream(fname)
             pre = {'stream': stream, 'pos': self.position(fname) if stream else 0, 'text': read()}
+            if not stream:
+                # a name denotes the file the operating system finds under it WHEN THE CALL BEGINS (links followed,
+                # '..' taken in the directory a link leads to, relative names under the working directory of that
+                # moment): resolved here, independently, and kept; the call is judged on that file
+                pre['key'], pre['read'] = key, read
+                pre['name'] = self.name_facts(fname, key[1], writing)
+                if writing:
+                    self.hold(pre, key[1])
             if writing and stream and 'a' in str(getattr(fname, 'mode', '')) and pre['text'] is not None:
                 pre['pos'] = len(pre['text'])   # append mode: the operating system writes at the end
                 pre['append'] = True
@@ -519,6 +564,64 @@ class Monitors:
         except Exception:  # noqa: BLE001
             self.ctx.oracle_error('C15 monitor (observation at call start)')
             return None
+
+    # ---- the file a name denotes ------------------------------------------------
+    @staticmethod
+    def name_facts(fname, p0, writing):
+        out = {}
+        try:
+            fs = os.fspath(fname)
+            out = {'given': fs[-160:], 'denotes': p0[-160:], 'is_symlink': os.path.islink(fs),
+                   'absolute': os.path.isabs(fs), 'has_dotdot': '..' in fs.split(os.sep)}
+            if os.path.exists(p0):
+                out['links_to_file'] = os.stat(p0).st_nlink
+            elif writing:
+                out['dangling_or_new'] = True
+        except Exception:  # noqa: BLE001
+            pass
+        return out
+
+    def hold(self, pre, p0):
+        """Keep a descriptor on the regular file that stands under the resolved name before a writing call:
+        afterwards the monitor can tell whether THAT file was written or another one was put in its place, and,
+        if it still has a name (a second hard link), what it holds."""
+        import stat as _stat
+        try:
+            st = os.stat(p0)
+            if _stat.S_ISREG(st.st_mode):
+                pre['fd'] = os.open(p0, os.O_RDONLY | getattr(os, 'O_CLOEXEC', 0))
+                pre['ident'] = (st.st_dev, st.st_ino)
+        except OSError:
+            pass
+
+    def same_file_key(self, key):
+        """The ledger entry of the same file under another of its names (hard link), if there is one."""
+        try:
+            if key is not None and key[0] == 'path' and key not in self.ledger and os.path.exists(key[1]):
+                for k2 in self.ledger:
+                    if k2[0] == 'path' and os.path.exists(k2[1]) and os.path.samefile(k2[1], key[1]):
+                        return k2
+        except OSError:
+            pass
+        return key
+
+    def denoted(self, fname, pre):
+        """(key, read) of a path target as resolved when the call began.  If the directory entry now leads to
+        another file while the file of before is still reachable under another name, that file is read."""
+        key, read = pre['key'], pre['read']
+        fd = pre.get('fd')
+        if fd is not None:
+            try:
+                now = os.stat(key[1])
+                same = (now.st_dev, now.st_ino) == pre['ident']
+            except OSError:
+                same = False
+            if not same:
+                pre['name']['file_replaced_not_written'] = True
+                self.ctx.count('info:file_under_the_name_was_replaced_by_another_file')
+                if os.fstat(fd).st_nlink > 0:
+                    read = path_reader(key[1], fd)
+        return key, read
 
     # ---- my reading of "data the format cannot represent" -----------------
     @staticmethod
@@ -560,6 +663,14 @@ class Monitors:
         return self.observe_start(ev, writing=True)
 
     def save_return(self, ev):
+        try:
+            self._save_return(ev)
+        finally:
+            fd = ev.pre.pop('fd', None) if isinstance(ev.pre, dict) else None
+            if fd is not None:
+                os.close(fd)
+
+    def _save_return(self, ev):
         ctx = self.ctx
         if ev.depth != 0:
             return
@@ -568,6 +679,9 @@ class Monitors:
             coord_arg, header_arg = ev.args.get('coord'), ev.args.get('header')
             classes, chosen = self.classify(da, coord_arg)
             key, tkind, conv, read = self.target_of(fname)
+            if key is not None and isinstance(ev.pre, dict) and 'key' in ev.pre:
+                key, read = self.denoted(fname, ev.pre)
+                key = self.same_file_key(key)
             if coord_arg is not None and plain(coord_arg) not in da.coords:
                 ctx.count('out_of_domain:coord_not_present')
                 return
@@ -586,9 +700,11 @@ class Monitors:
                 'dims': list(da.dims), 'shape': list(da.shape)}
         if self.label.get('step') is not None:
             base['step'] = self.label['step']
-        for extra in ('process_state', 'state_phase', 'call', 'second'):
+        for extra in ('process_state', 'state_phase', 'call', 'second', 'fs_form'):
             if self.label.get(extra) is not None:
                 base[extra] = self.label[extra]
+        if pre is not None and pre.get('name'):
+            base['target_file'] = pre['name']
         if coord_arg is not None and type(coord_arg) is not str:
             base['coord_arg_type'] = type(coord_arg).__mro__[0].__name__ + '/' + type(coord_arg).__mro__[1].__name__
         if type(da) is not sc.DataArray:
@@ -857,6 +973,8 @@ class Monitors:
                     ctx.hit('file_judged:data_array_subclass')
                 if n > 10**5:
                     ctx.hit('file_judged:rows_heavy')
+                for tag in self.label.get('credit_file') or ():
+                    ctx.hit(tag)
             if col is not None:
                 want = {'x': x, 'y': y, 'e': exp_e}[col][i]
                 got = rows[i][{'x': 0, 'y': 1, 'e': 2}[col]]
@@ -940,6 +1058,9 @@ class Monitors:
             fname = ev.args['fname']
             key, tkind, conv, read = self.target_of(fname)
             tkind = self.label.get('reader') or tkind
+            if key is not None and isinstance(ev.pre, dict) and 'key' in ev.pre:
+                key = ev.pre['key']       # the file the name denoted when the call began
+            key = self.same_file_key(key)
             segs = self.ledger.get(key)
         except Exception:  # noqa: BLE001
             ctx.oracle_error('C15 round-trip monitor (lookup)')
@@ -1018,9 +1139,11 @@ class Monitors:
                         tables_in_range=[[g['start'], g['end'], g['n'], r] for g, r in parts], n=n)
             if self.label.get('step') is not None:
                 case['step'] = self.label['step']
-            for extra in ('process_state', 'state_phase', 'call', 'second'):
+            for extra in ('process_state', 'state_phase', 'call', 'second', 'fs_form'):
                 if self.label.get(extra) is not None:
                     case[extra] = self.label[extra]
+            if pre.get('name'):
+                case['source_file'] = pre['name']
             ctx.event('load_xye.roundtrip')
             if nas:
                 ctx.event('load_xye.roundtrip.generated_header_not_ascii')
@@ -1098,6 +1221,8 @@ class Monitors:
                 ctx.hit('value:1+-ulp')
             if n == 1:
                 ctx.hit('rows:1')
+            if n in COINCIDING_ROWS:
+                ctx.hit('rows:%d' % n)
             if n >= 10000:
                 ctx.hit('rows:>=1e4')
             if n > 10**5:
@@ -1815,7 +1940,17 @@ def schedule():
                     'nonascii': '', 'layout': 'dict', 'da_subclass': True, 'coord_mode': mode})
     out.append({'kind': 'accept', 'header': 'default', 'target': 'stringio', 'rows': None, 'nonascii': '',
                 'layout': 'dict', 'chosen_variances': True})
-    return out
+    # sizes that coincide with sizes underneath (3 columns; the reader's chunk of 50000 rows): exactly, one below, one above
+    for j, nr in enumerate(COINCIDING_ROWS):
+        out.append({'kind': 'accept', 'header': ['default', 'lf_rows', 'empty'][j % 3],
+                    'target': ['stringio', 'path_str', 'handle', 'path_pathlib', 'path_str', 'stringio'][j],
+                    'rows': nr, 'nonascii': '', 'suffix': '', 'vcls': 'bits' if nr > 100 else 'mixed', 'layout': 'dict'})
+    out.append({'kind': 'unicode'})
+    # file-system forms of path targets first: one per shard in turn, '<linked directory>/../name' in shard 0 (the shard
+    # the runner repeats under its environment variants); the fresh-interpreter case in a shard that is not repeated
+    head = [{'kind': 'fs', 'form': f} for f in FS_FORMS]
+    head.insert(5, {'kind': 'fresh'})
+    return head + out
 
 
 def random_spec(rng, only=None):
@@ -2591,7 +2726,11 @@ DIM_NAMES = ['row', 'event', 'x', 'Y', 'E', 'dim_0', 'coord', 'header', 'fname',
              'slit', 'range', 'vertex']
 BETWEEN_OPS = ['repr', 'str', 'format', 'copy', 'deepcopy', 'pickle', 'eq', 'hash', 'bool']
 SECOND_USES = (['same_data_two_targets', 'same_path_twice', 'same_handle_twice', 'path_after_refusal',
-                'result_fed_back', 'load_twice', 'load_after_failed_load', 'same_stringio_loaded_twice']
+                'result_fed_back', 'load_twice', 'load_after_failed_load', 'same_stringio_loaded_twice',
+                # the very same objects again after one of them was modified in place; results and arguments
+                # that must not share memory with each other or with what a later call produces
+                'data_modified_in_place_between_saves', 'arguments_unchanged_by_save',
+                'result_overwritten_then_loaded_again', 'result_unchanged_by_later_calls']
                + ['between_' + op for op in BETWEEN_OPS])
 
 
@@ -2714,6 +2853,8 @@ def run_second(shard, k, env, rng, spec):
     sub = spec['second']
     base = {'kind': 'accept', 'header': spec.get('header', 'default'), 'target': spec['target'], 'rows': spec.get('rows'),
             'nonascii': '', 'vcls': 'mixed', 'second': sub}
+    if sub in ('data_modified_in_place_between_saves', 'arguments_unchanged_by_save'):
+        base['layout'] = 'dict'         # arrays the caller owns and can write to
     da, kw, dim, chosen, unit, cunit, sig, trivial = build_accept(rng, base, env.tier, k)
     lkw = {'dim': dim, 'unit': unit, 'coord_unit': cunit, 'coord': chosen}
     mon.label = {'target': None, 'k': k, 'second': sub}     # the monitors name the kind of target themselves
@@ -2788,6 +2929,93 @@ def run_second(shard, k, env, rng, spec):
             quiet(env.save, a, da, **kw)
             quiet(env.load, os.fspath(a) + '.absent', **lkw)     # FileNotFoundError, caught by the caller
             credited(env.load, a, **lkw)
+        elif sub == 'data_modified_in_place_between_saves':
+            # memoisation keyed by the identity of the data array / its variables would hand out the old table
+            a, b = path_target(), io.StringIO()
+            kw2 = dict(kw, coord=chosen)
+            quiet(env.save, a, da, **kw2)
+            quiet(env.save, b, da, **kw2)
+            quiet(env.load, a, **lkw)
+            n = da.shape[0]
+            for step in range(3):
+                if step == 0:        # all values, in place
+                    da.values[...] = draw_values(rng, n, 'mixed')
+                    da.variances[...] = np.abs(draw_values(rng, n, 'mixed'))
+                elif step == 1:      # a slice of the written coordinate
+                    m = int(rng.integers(0, n))
+                    da.coords[chosen][da.dim, m:].values[...] = draw_values(rng, n - m, 'bits')
+                else:                # one element each
+                    i = int(rng.integers(0, n))
+                    da.values[i] = float(finite_bits(rng, 1)[0])
+                    da.coords[chosen].values[i] = float(finite_bits(rng, 1)[0])
+                    da.variances[i] = abs(float(finite_bits(rng, 1)[0]))
+                b = io.StringIO()
+                quiet(env.save, a, da, **kw2)
+                quiet(env.save, b, da, **kw2)
+                b.seek(0)
+                (credited if step == 2 else quiet)(env.load, a, **lkw)
+                (credited if step == 2 else quiet)(env.load, b, **lkw)
+        elif sub == 'arguments_unchanged_by_save':
+            snap = da.copy(deep=True)
+            a, b = path_target(), io.StringIO()
+            quiet(env.save, a, da, **kw)
+            quiet(env.save, b, da, **kw)
+            b.seek(0)
+            same = sc.identical(da, snap, equal_nan=True) and all(
+                np.asarray(u).tobytes() == np.asarray(v).tobytes() for u, v in (
+                    (da.values, snap.values), (da.variances, snap.variances),
+                    (da.coords[chosen].values, snap.coords[chosen].values)))
+            ctx.event('second_use.arguments_compared')
+            if not same:
+                mon.viol('argument_modified_by_save', 'the data array handed to save_xye is not what it was before the call',
+                         {'k': k, 'second': sub, 'coords': [str(c) for c in da.coords.keys()], 'n': da.shape[0]})
+            quiet(env.load, a, **lkw)
+            credited(env.load, b, **lkw)
+        elif sub == 'result_overwritten_then_loaded_again':
+            # the caller scribbles over what load_xye returned; loading again gives the file again
+            for a in (path_target(), io.StringIO()):
+                quiet(env.save, a, da, **kw)
+                for rep in range(2):
+                    if isinstance(a, io.StringIO):
+                        a.seek(0)
+                    res = (credited if rep else quiet)(env.load, a, **lkw)
+                    if isinstance(res, sc.DataArray):
+                        try:
+                            res.values[...] = 0.0
+                            res.variances[...] = 1.0
+                            for c in res.coords.values():
+                                c.values[...] = -1.0
+                            res.unit = 'one'
+                        except Exception:  # noqa: BLE001  a result that cannot be written to: nothing to scribble
+                            ctx.count('info:loaded_result_not_writable')
+        elif sub == 'result_unchanged_by_later_calls':
+            # what was returned earlier does not change when the file / the stream is written and read again
+            da0, kw0, *_ = build_accept(rng, dict(base, rows=da.shape[0] + int(rng.integers(1, 9))), env.tier, k)
+            for a in (path_target(), io.StringIO()):
+                quiet(env.save, a, da, **kw)
+                if isinstance(a, io.StringIO):
+                    a.seek(0)
+                res = quiet(env.load, a, **lkw)
+                if not isinstance(res, sc.DataArray):
+                    continue
+                snap = res.copy(deep=True)
+                if isinstance(a, io.StringIO):
+                    a.seek(0)
+                    a.truncate()
+                quiet(env.save, a, da0, **kw0)
+                if isinstance(a, io.StringIO):
+                    a.seek(0)
+                res2 = credited(env.load, a, **lkw)
+                if isinstance(res2, sc.DataArray):
+                    try:
+                        res2.values[...] = 0.0
+                    except Exception:  # noqa: BLE001
+                        pass
+                ctx.event('second_use.result_compared')
+                if not sc.identical(res, snap, equal_nan=True):
+                    mon.viol('result_changed_by_later_call', 'a data array load_xye returned earlier changed when the same '
+                             'target was saved to and loaded again', {'k': k, 'second': sub, 'n': int(snap.shape[0]),
+                                                                       'target': type(a).__name__})
         elif sub.startswith('between_'):
             op = sub[len('between_'):]
             a, b = path_target(), io.StringIO()
@@ -2810,13 +3038,558 @@ def run_second(shard, k, env, rng, spec):
     ctx.case(sig, trivial=False)
 
 
+# ---- file-system forms of path targets ----------------------------------------------------------------------
+# "path targets": a name stands for the file the operating system finds under it.  Every way in which the file
+# system lets a name and a file differ is a class: the name is a symbolic link (to a file that exists, to one that
+# does not exist yet, through a second link, with a relative link text), the file has a second name (hard link),
+# the way to it leads through a linked directory and back up with '..' (the parent of the directory the link
+# LEADS TO), the name is spelled differently on save and on load ('a/../a/f', 'a//f', './a/./f', through a link and
+# directly, relative to a working directory that changes between the calls or while a handle is open), a reader
+# holds the file open while it is written again, the name holds characters that are special to shells / URLs /
+# format strings / home-directory expansion or that merely normalise (NFC / NFKC) to another name that exists too.
+# What is expected never comes from the package: the monitors resolve the name themselves when a call begins
+# (os.path.realpath, os.stat, a descriptor on the file) and judge that file.
+FS_FORMS = ['symdir_dotdot', 'symdir_dotdot_relative', 'dotdot_plain', 'through_linked_dir', 'symlink_to_file',
+            'dangling_symlink', 'hardlink', 'reader_holds_open', 'chdir_between', 'handle_relative_name',
+            'odd_names_0', 'odd_names_1', 'odd_names_2', 'memory_initial_content']
+# (label, name relative to the case directory, twin: another name that must stay another file, or None)
+ODD_NAMES = [
+    ('tilde_dir', '~/f.xye', None), ('tilde_prefix', '~f.xye', None), ('tilde_user', '~root', None),
+    ('dollar', '$HOME.xye', None), ('dollar_braces', '${HOME}/f.xye', None), ('space', 'a b.xye', None),
+    ('leading_space', ' f.xye', 'f.xye'), ('trailing_space', 'g.xye ', 'g.xye'), ('trailing_dot', 'h.xye.', 'h.xye'),
+    ('hash', '#x.xye', None), ('glob_brackets', 'f[1].xye', 'f1.xye'), ('glob_star', 'f*.xye', 'fa.xye'),
+    ('glob_question', 'f?.xye', 'fb.xye'), ('dash', '-f.xye', None), ('semicolon', 'f;x.xye', None),
+    ('quotes', 'f\'q".xye', None), ('percent_escape', 'f%41.xye', 'fA.xye'), ('percent_s', '%s.xye', None),
+    ('braces', '{0}.xye', None), ('backslash', 'f\\g.xye', None), ('colon', 'a:b.xye', None),
+    ('scheme_like', 'file:f2.xye', 'f2.xye'), ('upper_case_gz', 'f.XYE.GZ', None), ('gz_inside', 'f.gz.xye', None),
+    ('double_slash', 'sub//f.xye', None), ('dot_components', './sub/./g.xye', None), ('newline_inside', 'f\nx.xye', None),
+    ('newline_at_end', 'n.xye\n', 'n.xye'), ('tab', 'f\tx.xye', None), ('hidden', '.hidden', None), ('no_extension', 'noext', None),
+    ('case_differs', 'Case.xye', 'case.xye'), ('latin1', 'gr' + chr(0xF6) + chr(0xDF) + 'e.xye', None), ('cjk', chr(0x6CE2) + chr(0x9577) + '.xye', None),
+    ('astral', '\U0001d706.xye', None),
+    # names that are not in NFC / NFKC form; the normalised name (worked out with unicodedata) is the name of ANOTHER file
+    ('nfd_accent', 'e' + chr(0x301) + 'nergie.xye', 'NORM'), ('angstrom_sign', chr(0x212B) + '.xye', 'NORM'),
+    ('kelvin_sign', 'T_' + chr(0x212A) + '.xye', 'NORM'), ('ohm_sign', chr(0x2126) + '.xye', 'NORM'),
+    ('micro_sign', chr(0xB5) + 's.xye', 'NORM'), ('fullwidth', chr(0xFF58) + '.xye', 'NORM'),
+    ('ligature', chr(0xFB01) + 't.xye', 'NORM'), ('jamo', chr(0x1112) + chr(0x1161) + chr(0x11AB) + '.xye', 'NORM'),
+    ('greek_question_mark', 'a' + chr(0x37E) + 'b.xye', 'NORM'), ('fullwidth_slash', 'sub' + chr(0xFF0F) + 'z.xye', None),
+    ('fullwidth_dot', 'f' + chr(0xFF0E) + 'xye', 'NORM'),
+]
+ODD_PARTS = 3
+MEMORY_FORMS = ['stringio_initial_overwritten', 'stringio_initial_appended', 'stringio_universal_initial_appended',
+                'stringio_rewound_after_write', 'handle_rewound_after_write', 'stringio_read_then_written_again']
+FS_CREDITS = {
+    'symdir_dotdot': ['save', 'load_same_name', 'load_resolved_name', 'load_after_save_by_resolved_name',
+                      'pathlib', 'link_text_relative', 'link_text_absolute'],
+    'symdir_dotdot_relative': ['save', 'load_same_name', 'load_resolved_name'],
+    'dotdot_plain': ['save_spelled_load_plain', 'save_plain_load_spelled'],
+    'through_linked_dir': ['save_through_link_load_direct', 'save_direct_load_through_link'],
+    'symlink_to_file': ['save_absolute_link', 'save_relative_link', 'save_link_to_link', 'load_link', 'load_file_behind'],
+    'dangling_symlink': ['save', 'load_file_behind', 'load_link'],
+    'hardlink': ['save', 'load_other_name', 'save_other_name', 'load_first_name'],
+    'reader_holds_open': ['save', 'load_through_reader', 'load_path'],
+    'chdir_between': ['save_relative', 'load_relative_elsewhere', 'load_absolute', 'load_relative_dotdot'],
+    'handle_relative_name': ['save', 'load'],
+    'memory_initial_content': MEMORY_FORMS,
+}
+# sizes that coincide with sizes underneath: the 3 columns of the table (2 / 3 / 4 rows: a square 3 x 3 table, one
+# row fewer, one more), the 50000 rows numpy's text reader takes per chunk
+COINCIDING_ROWS = (2, 3, 4, 49999, 50000, 50001)
+
+
+def fs_requirements():
+    out = [f'fs:{f}:{c}' for f, cs in FS_CREDITS.items() for c in cs]
+    out += [f'fs:odd_name:{lab}:{w}' for lab, _, _ in ODD_NAMES for w in ('save', 'load')]
+    out += ['fs:odd_name:twin_kept_apart']
+    return out
+
+
+class Table:
+    """One generated table: the data, the keyword arguments of the two calls."""
+
+    def __init__(self, rng, env, k, rows, header='default', coord_mode=None):
+        spec = {'kind': 'accept', 'header': header, 'target': 'path_str', 'rows': rows, 'nonascii': '', 'vcls': 'mixed',
+                'layout': 'dict'}
+        if coord_mode:
+            spec['coord_mode'] = coord_mode
+        self.da, self.kw, dim, chosen, unit, cunit, self.sig, _ = build_accept(rng, spec, env.tier, k)
+        self.lkw = {'dim': dim, 'unit': unit, 'coord_unit': cunit, 'coord': chosen}
+
+
+def run_fs(shard, k, env, rng, spec):
+    ctx, mon = env.ctx, env.mon
+    form = spec['form']
+    env.nfile += 1
+    root = os.path.join(os.path.realpath(env.tmp), f'fs{env.nfile}')
+    os.makedirs(root)
+    cwd0 = os.getcwd()
+    n0 = int(rng.integers(1, 40))
+    hdrs = ['default', 'plain', 'lf_rows', 'empty']
+
+    def table(i, rows=None):
+        # later tables are shorter than earlier ones: what an earlier call left behind cannot pass for the new one
+        return Table(rng, env, k, rows or n0 + 7 * (4 - i) + int(rng.integers(0, 5)), hdrs[int(rng.integers(0, len(hdrs)))])
+
+    def S(name, t, *tags):
+        mon.label = {'target': None, 'k': k, 'fs_form': form, 'credit_file': [f'fs:{form}:{x}' for x in tags]}
+        try:
+            env.save(name, t.da, **t.kw)
+        except Exception:  # noqa: BLE001  judged by the save monitor
+            pass
+
+    def L(name, t, *tags):
+        mon.label = {'target': None, 'k': k, 'fs_form': form, 'credit': [f'fs:{form}:{x}' for x in tags]}
+        try:
+            env.load(name, **t.lkw)
+        except Exception:  # noqa: BLE001  judged by the round-trip monitor
+            pass
+
+    J = os.path.join
+    closers = []
+    try:
+        if form in ('symdir_dotdot', 'symdir_dotdot_relative', 'through_linked_dir'):
+            # proposal/archive/cycle_3 is a real directory, proposal/current a link to it
+            cycle = J(root, 'proposal', 'archive', 'cycle_3')
+            os.makedirs(cycle)
+            current = J(root, 'proposal', 'current')
+        if form == 'symdir_dotdot':
+            for j, kind in enumerate((str, pathlib.Path)):
+                if j:
+                    os.remove(current)
+                os.symlink(cycle if j else J('archive', 'cycle_3'), current, target_is_directory=True)
+                link_text = 'link_text_absolute' if j else 'link_text_relative'
+                t0, t1, t2 = table(0), table(1), table(2)
+                canon = J(root, 'proposal', 'archive', f'reduced{j}.xye')     # what the operating system makes of it
+                S(J(root, 'proposal', f'reduced{j}.xye'), t0)                  # another file, where the text of the name "collapses" to
+                name = kind(J(current, '..', f'reduced{j}.xye'))
+                S(name, t1, 'save', *(['pathlib'] if j else []))
+                L(name, t1, 'load_same_name', link_text)
+                L(canon, t1, 'load_resolved_name')
+                S(kind(canon), t2)
+                L(name, t2, 'load_after_save_by_resolved_name')
+        elif form == 'symdir_dotdot_relative':
+            os.symlink(J('archive', 'cycle_3'), current, target_is_directory=True)
+            t0, t1 = table(0), table(1)
+            S(J(root, 'proposal', 'rel.xye'), t0)
+            os.chdir(J(root, 'proposal'))
+            name = J('current', '..', 'rel.xye')
+            S(name, t1, 'save')
+            L(name, t1, 'load_same_name')
+            t1 = table(2)
+            S(pathlib.Path(name), t1, 'save')
+            L(pathlib.Path(name), t1, 'load_same_name')
+            os.chdir(cwd0)
+            L(J(root, 'proposal', 'archive', 'rel.xye'), t1, 'load_resolved_name')
+        elif form == 'through_linked_dir':
+            os.symlink(cycle, current, target_is_directory=True)
+            t1, t2 = table(1), table(2)
+            S(J(current, 'f.xye'), t1)
+            L(J(cycle, 'f.xye'), t1, 'save_through_link_load_direct')
+            S(pathlib.Path(cycle, 'g.xye'), t2)
+            L(pathlib.Path(current, 'g.xye'), t2, 'save_direct_load_through_link')
+        elif form == 'dotdot_plain':
+            os.makedirs(J(root, 'a'))
+            os.makedirs(J(root, 'b', 'c'))
+            spelled = [J(root, 'a', '..', 'a', 'f.xye'), J(root, 'b', 'c', '..', '..', 'a', 'f.xye'), J(root, 'a//f.xye'),
+                       J(root, '.', 'a', '.', 'f.xye'), J(root, 'a', '') + 'f.xye']
+            plain_name = J(root, 'a', 'f.xye')
+            for j, sp in enumerate(spelled):
+                t1, t2 = table(1), table(2)
+                S(sp if j % 2 else pathlib.Path(sp), t1)
+                L(plain_name, t1, 'save_spelled_load_plain')
+                S(plain_name, t2)
+                L(sp, t2, 'save_plain_load_spelled')
+        elif form == 'symlink_to_file':
+            os.makedirs(J(root, 'runs'))
+            for j, how in enumerate(('absolute_link', 'relative_link', 'link_to_link')):
+                real = J(root, 'runs', f'run_{j}.xye')
+                link = J(root, f'latest{j}.xye')
+                t0, t1 = table(0), table(1)
+                S(real, t0)
+                if how == 'absolute_link':
+                    os.symlink(real, link)
+                elif how == 'relative_link':
+                    os.symlink(J('runs', f'run_{j}.xye'), link)      # taken relative to the directory of the link
+                else:
+                    os.symlink(real, J(root, 'runs', 'hop.xye'))
+                    os.symlink(J('runs', 'hop.xye'), link)
+                L(link, t0, 'load_link')
+                S(link if j != 1 else pathlib.Path(link), t1, 'save_' + how)
+                L(link, t1, 'load_link')
+                L(real, t1, 'load_file_behind')
+        elif form == 'dangling_symlink':
+            os.makedirs(J(root, 'runs'))
+            for j, kind in enumerate((str, pathlib.Path)):
+                future = J(root, 'runs', f'run_{j}.xye')
+                link = J(root, f'next{j}.xye')
+                os.symlink(future if j else J('runs', f'run_{j}.xye'), link)
+                t1 = table(1)
+                S(kind(link), t1, 'save')
+                L(future, t1, 'load_file_behind')
+                L(kind(link), t1, 'load_link')
+        elif form == 'hardlink':
+            os.makedirs(J(root, 'snapshot'))
+            a, b = J(root, 'a.xye'), J(root, 'snapshot', 'b.xye')
+            t0, t1, t2 = table(0), table(1), table(2)
+            S(a, t0)
+            os.link(a, b)
+            S(a, t1, 'save')
+            L(b, t1, 'load_other_name')
+            L(a, t1)
+            S(pathlib.Path(b), t2, 'save_other_name')
+            L(a, t2, 'load_first_name')
+        elif form == 'reader_holds_open':
+            for j in range(2):
+                c = J(root, f'c{j}.xye')
+                t0, t1 = table(0), table(1)
+                S(c, t0)
+                reader = open(c) if j == 0 else open(c, newline='')     # nothing read yet
+                closers.append(reader.close)
+                S(c if j == 0 else pathlib.Path(c), t1, 'save')
+                L(reader, t1, 'load_through_reader')
+                L(c, t1, 'load_path')
+        elif form == 'chdir_between':
+            os.makedirs(J(root, 'out'))
+            os.makedirs(J(root, 'elsewhere'))
+            t1, t2 = table(1), table(2)
+            os.chdir(root)
+            S(J('out', 'f.xye'), t1, 'save_relative')
+            os.chdir(J(root, 'out'))
+            L('f.xye', t1, 'load_relative_elsewhere')
+            os.chdir(J(root, 'elsewhere'))
+            L(J(root, 'out', 'f.xye'), t1, 'load_absolute')
+            S(pathlib.Path(root, 'out', 'g.xye'), t2)
+            L(J('..', 'out', 'g.xye'), t2, 'load_relative_dotdot')
+            # a file of the same relative name in the new working directory is another file
+            S(J('..', 'elsewhere', 'f.xye'), table(3))
+            os.chdir(J(root, 'out'))
+            L(pathlib.Path('f.xye'), t1, 'load_relative_elsewhere')
+        elif form == 'handle_relative_name':
+            # a handle opened under a relative name stays on its file when the working directory changes
+            os.makedirs(J(root, 'out'))
+            t0, t1 = table(0), table(1)
+            S(J(root, 'h.xye'), t0)            # what the relative name would mean in the other directory
+            os.chdir(J(root, 'out'))
+            f = open('h.xye', 'w')
+            closers.append(f.close)
+            rp = J(root, 'out', 'h.xye')
+
+            def read_flushed(f=f, rp=rp):
+                if not f.closed:
+                    f.flush()
+                return path_reader(rp)()
+            mon.register(f, ('path', rp), read_flushed, encoding=f.encoding)
+            os.chdir(root)
+            S(f, t1, 'save')
+            f.close()
+            os.chdir(J(root, 'out'))
+            r = open('h.xye')
+            closers.append(r.close)
+            mon.register(r, ('path', rp), path_reader(rp), encoding=r.encoding)
+            os.chdir(root)
+            L(r, t1, 'load')
+        elif form.startswith('odd_names_'):
+            part = int(form.rsplit('_', 1)[1])
+            for d in ('~', 'sub', '${HOME}'):
+                os.makedirs(J(root, d))
+            os.chdir(root)
+            home = os.environ.get('HOME')
+            os.environ['HOME'] = root        # whoever expands '~' / '$HOME' stays inside the case directory
+
+            def put_home_back():
+                if home is None:
+                    os.environ.pop('HOME', None)
+                else:
+                    os.environ['HOME'] = home
+            closers.append(put_home_back)
+            for lab, name, twin in ODD_NAMES[part::ODD_PARTS]:
+                form = 'odd_name'
+                t1 = table(1, rows=int(rng.integers(1, 6)))
+                tw = None
+                if twin == 'NORM':
+                    import unicodedata
+                    twin = unicodedata.normalize('NFC', name)
+                    twin = unicodedata.normalize('NFKC', name) if twin == name else twin
+                    if twin == name:
+                        ctx.oracle_error('C15 file names: name is already normalised')
+                        continue
+                if twin is not None:
+                    tw = table(0, rows=int(rng.integers(7, 12)))
+                    S(twin, tw)
+                S(name, t1, lab + ':save')
+                L(name, t1, lab + ':load')
+                L(J(root, name), t1)
+                nm = pathlib.Path(name)
+                if os.fspath(nm) == name:       # (pathlib drops './' and doubled slashes itself: the caller's doing)
+                    t1 = table(1, rows=int(rng.integers(1, 6)))
+                    S(nm, t1)
+                    L(nm, t1)
+                if tw is not None:
+                    if os.path.samefile(twin, name):     # a file system that folds the two names into one
+                        ctx.count('out_of_domain:file_system_does_not_keep_names_apart')
+                    else:
+                        L(twin, tw, 'twin_kept_apart')
+        elif form == 'memory_initial_content':
+            for mf in MEMORY_FORMS:
+                t0, t1 = table(1), table(0)          # the second one is the longer one here
+                kw0 = dict(t0.kw, header='')
+                if mf.startswith('stringio'):
+                    init = '# ' + TITLES[int(rng.integers(0, len(TITLES)))] + '\n'
+                    f = io.StringIO(init, newline=None) if 'universal' in mf else io.StringIO(init)
+                else:
+                    f = open(J(root, 'rewound.xye'), 'w+')
+                    closers.append(f.close)
+                mon.label = {'target': None, 'k': k, 'fs_form': mf}
+                try:
+                    if mf.endswith('initial_appended'):
+                        f.seek(0, 2)
+                        env.save(f, t1.da, **t1.kw)
+                    elif mf.endswith('initial_overwritten'):
+                        env.save(f, t1.da, **t1.kw)      # position 0: the table is longer than the title
+                    elif mf.endswith('rewound_after_write'):
+                        env.save(f, t0.da, **kw0)
+                        f.seek(0)
+                        env.save(f, t1.da, **t1.kw)      # longer: nothing of the first table is left
+                    else:
+                        f.seek(0, 2)
+                        env.save(f, t0.da, **kw0)
+                        f.seek(0)
+                        mon.label['credit'] = []
+                        env.load(f, **t0.lkw)
+                        f.seek(0, 2)
+                        off = f.tell()
+                        env.save(f, t1.da, **t1.kw)      # at the end, behind what was read
+                        f.seek(off)
+                    if not mf.endswith('read_then_written_again'):
+                        f.seek(0)
+                    mon.label['credit'] = ['fs:memory_initial_content:' + mf]
+                    env.load(f, **t1.lkw)
+                except Exception:  # noqa: BLE001  judged by the monitors
+                    pass
+        else:
+            raise KeyError(form)
+    finally:
+        os.chdir(cwd0)
+        for c in closers:
+            try:
+                c()
+            except Exception:  # noqa: BLE001
+                pass
+        env.end_case()
+        shutil.rmtree(root, ignore_errors=True)
+    ctx.case(('fs', spec['form']), trivial=False)
+
+
+# ---- strings that are not in NFC / NFKC form ----------------------------------------------------------------
+# Coordinate names, dimension names and unit strings are recovered code point by code point; a name that merely
+# normalises to the name of another coordinate is not that coordinate.
+UNICODE_NAMES = [('nfd_accent', 'e' + chr(0x301) + 'nergie'), ('angstrom_sign', 'd [' + chr(0x212B) + ']'),
+                 ('kelvin_sign', 'T_' + chr(0x212A)), ('ohm_sign', 'R_' + chr(0x2126)), ('micro_sign', 'tof_' + chr(0xB5) + 's'),
+                 ('fullwidth', chr(0xFF58)), ('ligature', chr(0xFB01) + 't'), ('jamo', chr(0x1112) + chr(0x1161) + chr(0x11AB)),
+                 ('greek_question_mark', 'a' + chr(0x37E) + 'b'), ('nfd_tilde', 'n' + chr(0x303)),
+                 ('circled_digit', 'bank' + chr(0x2460)), ('superscript', 'Q' + chr(0xB2))]
+UNICODE_UNITS = [chr(0x212B), '1/' + chr(0x212B), chr(0x3BC) + 's', chr(0x2103), chr(0xB5) + 's', chr(0xC5)]     # spellings scipp's parser takes
+UNICODE_MODES = ['explicit', 'explicit_twin', 'deduced', 'deduced_twin']
+
+
+def run_unicode(shard, k, env, rng, spec):
+    import unicodedata
+    ctx, mon = env.ctx, env.mon
+    paths = []
+    try:
+        for j, (lab, name) in enumerate(UNICODE_NAMES):
+            twin = unicodedata.normalize('NFC', name)
+            if twin == name:
+                twin = unicodedata.normalize('NFKC', name)
+            if twin == name:
+                ctx.oracle_error('C15 unicode class: name is already normalised')
+                continue
+            for mi, mode in enumerate(UNICODE_MODES):
+                n = int(rng.integers(1, 9))
+                written, other = (twin, name) if mode.endswith('twin') else (name, twin)
+                dim = written if mode.startswith('deduced') else ['row', other][int(rng.integers(0, 2))]
+                da = sc.DataArray(
+                    sc.array(dims=[dim], values=draw_values(rng, n, 'mixed'), variances=np.abs(draw_values(rng, n, 'mixed')),
+                             unit='counts'),
+                    coords={nm: sc.array(dims=[dim], values=draw_values(rng, n, 'bits'), unit='m')
+                            for nm in ([name, twin] if rng.random() < 0.5 else [twin, name])})
+                kw = {'coord': written} if mode.startswith('explicit') else {}
+                if (j + mi) % 3 == 0:
+                    kw['header'] = ''
+                u = UNICODE_UNITS[(j + mi) % len(UNICODE_UNITS)]
+                try:
+                    sc.Unit(u)
+                except Exception:  # noqa: BLE001  a spelling this scipp does not take: not used
+                    u = 'm'
+                lkw = {'dim': dim, 'unit': 'counts', 'coord_unit': u, 'coord': written}
+                if (j + mi) % 2:
+                    lkw['dim'], lkw['coord'] = other, written       # both forms side by side in the result
+                if mi % 2:
+                    p = env.fresh_path(suffix='')
+                    paths.append(p)
+                    tgt = p
+                else:
+                    tgt = io.StringIO()
+                mon.label = {'target': None, 'k': k, 'credit_file': [f'unicode_name:{lab}:{mode}:file'],
+                             'credit': [f'unicode_name:{lab}:{mode}:loaded']}
+                try:
+                    env.save(tgt, da, **kw)
+                    if isinstance(tgt, io.StringIO):
+                        tgt.seek(0)
+                    env.load(tgt, **lkw)
+                except Exception:  # noqa: BLE001  judged by the monitors
+                    pass
+    finally:
+        env.end_case()
+        for p in paths:
+            if os.path.exists(p):
+                os.remove(p)
+    ctx.case(('unicode_names',), trivial=False)
+
+
+# ---- first call in a fresh interpreter ------------------------------------------------------------------------
+FRESH_SAVE = r'''
+import sys, json
+from scippneutron.io.xye import save_xye        # the module of the entry point and nothing else of the package
+import io, numpy as np, scipp as sc
+job = json.load(open(sys.argv[1]))
+f = lambda hs: np.array([float.fromhex(h) for h in hs])
+da = sc.DataArray(sc.array(dims=[job['dim']], values=f(job['y']), variances=f(job['var']), unit=job['unit']),
+                  coords={job['coord']: sc.array(dims=[job['dim']], values=f(job['x']), unit=job['coord_unit'])})
+kw = {} if job['header'] is None else {'header': job['header']}
+if job['path'] is None:
+    s = io.StringIO()
+    save_xye(s, da, **kw)
+    json.dump({'text': s.getvalue(), 'tree': sys.modules['scippneutron'].__file__}, sys.stdout)
+else:
+    save_xye(job['path'], da, **kw)
+    json.dump({'text': None, 'tree': sys.modules['scippneutron'].__file__}, sys.stdout)
+'''
+FRESH_LOAD = r'''
+import sys, json
+from scippneutron.io.xye import load_xye        # the module of the entry point and nothing else of the package
+job = json.load(open(sys.argv[1]))
+r = load_xye(job['path'], dim=job['dim'], unit=job['unit'], coord_unit=job['coord_unit'], coord=job['coord'])
+c = r.coords[job['coord']]
+json.dump({'tree': sys.modules['scippneutron'].__file__, 'dims': list(r.dims), 'coords': [str(n) for n in r.coords.keys()], 'unit': str(r.unit), 'coord_unit': str(c.unit),
+           'x': [float(v).hex() for v in c.values], 'y': [float(v).hex() for v in r.values],
+           'var': None if r.variances is None else [float(v).hex() for v in r.variances]}, sys.stdout)
+'''
+
+
+def run_fresh(shard, k, env, rng, spec):
+    """The first call an interpreter ever makes into the module gives what every other call gives: a subprocess
+    imports the module of the entry point only and calls it once.  What it wrote is decoded by the independent
+    parser and compared with the data; what it loaded (a file a monitored save_xye of this worker wrote) is
+    compared with the data."""
+    import json
+    import subprocess
+    import sys
+    ctx, mon = env.ctx, env.mon
+    hx = lambda a: [float(v).hex() for v in np.asarray(a, dtype=np.float64)]    # noqa: E731
+    tmpfiles = []
+
+    def child(script, job):
+        jp = env.fresh_path(suffix='.json')
+        tmpfiles.append(jp)
+        with open(jp, 'w') as f:
+            json.dump(job, f)
+        p = subprocess.run([sys.executable, '-c', script, jp], capture_output=True, text=True, timeout=300,
+                           cwd=env.tmp)
+        return p
+
+    try:
+        for j, target in enumerate(('stringio', 'path')):
+            n = [1, int(rng.integers(2, 60))][j]
+            x, y, var = draw_values(rng, n, 'mixed'), draw_values(rng, n, 'mixed'), np.abs(draw_values(rng, n, 'mixed'))
+            dim, cname = ['tof', 'row'][j], ['tof', 'dspacing'][j]
+            header = [None, '1 2 3\n4 5 6'][j]
+            path = None
+            if target == 'path':
+                path = env.fresh_path(suffix='')
+                tmpfiles.append(path)
+            job = {'dim': dim, 'coord': cname, 'unit': 'counts', 'coord_unit': ['us', 'angstrom'][j], 'header': header,
+                   'x': hx(x), 'y': hx(y), 'var': hx(var), 'path': path}
+            case = {'k': k, 'entry_point': 'save_xye', 'target': target, 'n': n, 'x': hx(x)[:8], 'y': hx(y)[:8], 'var': hx(var)[:8]}
+            p = child(FRESH_SAVE, job)
+            ctx.event('fresh_interpreter.call')
+            if p.returncode != 0:
+                mon.viol('fresh_interpreter_call_raised', 'save_xye as the first call of a fresh interpreter that imported '
+                         'scippneutron.io.xye only: ' + (p.stderr or '').strip()[-300:], case, function='save_xye')
+                continue
+            try:
+                reply = json.loads(p.stdout)
+                if os.path.realpath(reply['tree']) != os.path.realpath(sys.modules['scippneutron'].__file__):
+                    ctx.inconclusive_because('the fresh interpreter imported another source tree than the worker')
+                    continue
+                text = reply['text'] if path is None else path_reader(path)()
+                rows, bad, _, _ = parse_table(text or '', 'lf' if path is None else 'universal')
+                exp_e = np.sqrt(var.astype(np.longdouble)).astype(np.float64)
+                ok = text is not None and len(rows) == n and not bad and mon._rows_match(rows, x, y, exp_e)[0] is None
+            except Exception:  # noqa: BLE001
+                ctx.oracle_error('C15 fresh interpreter (decoding what the child wrote)')
+                continue
+            if not ok:
+                mon.viol('fresh_interpreter_file_differs', 'the table save_xye wrote as the first call of a fresh interpreter '
+                         f'is not the data: {len(rows)} table lines ({len(bad)} malformed) for {n} rows, or numbers differ',
+                         dict(case, file_head=(text or '')[:300]), function='save_xye')
+            else:
+                ctx.hit('fresh_interpreter:save_xye:' + target)
+        # load: a file a monitored save of this worker wrote
+        t = Table(rng, env, k, int(rng.integers(1, 60)), 'default', 'explicit')
+        path = env.fresh_path(suffix='')
+        tmpfiles.append(path)
+        mon.label = {'target': None, 'k': k}
+        before = ctx.n_violations
+        env.save(path, t.da, **t.kw)
+        env.load(path, **t.lkw)
+        if ctx.n_violations == before:
+            lk = t.lkw
+            job = {'path': path, 'dim': lk['dim'], 'unit': lk['unit'], 'coord_unit': lk['coord_unit'], 'coord': lk['coord']}
+            case = {'k': k, 'entry_point': 'load_xye', 'n': t.da.shape[0], 'load_args': {a: str(b) for a, b in lk.items()}}
+            p = child(FRESH_LOAD, job)
+            ctx.event('fresh_interpreter.call')
+            if p.returncode != 0:
+                mon.viol('fresh_interpreter_call_raised', 'load_xye as the first call of a fresh interpreter that imported '
+                         'scippneutron.io.xye only: ' + (p.stderr or '').strip()[-300:], case, function='load_xye')
+            else:
+                try:
+                    got = json.loads(p.stdout)
+                    if os.path.realpath(got.pop('tree')) != os.path.realpath(sys.modules['scippneutron'].__file__):
+                        raise RuntimeError('the fresh interpreter imported another source tree than the worker')
+                    f = lambda hs: np.array([float.fromhex(h) for h in hs], dtype=np.float64)    # noqa: E731
+                    x = np.asarray(t.da.coords[lk['coord']].values, dtype=np.float64)
+                    y = np.asarray(t.da.values, dtype=np.float64)
+                    var = np.asarray(t.da.variances, dtype=np.float64)
+                    ok = (got['dims'] == [lk['dim']] and got['coords'] == [lk['coord']] and got['var'] is not None
+                          and got['unit'] == str(sc.Unit(lk['unit']) if lk['unit'] is not None else None)
+                          and got['coord_unit'] == str(sc.Unit(lk['coord_unit']) if lk['coord_unit'] is not None else None)
+                          and len(got['x']) == len(x) and f(got['x']).tobytes() == x.tobytes()
+                          and f(got['y']).tobytes() == y.tobytes() and ulp_dist(f(got['var']), var)[0] <= VAR_ULP)
+                except Exception:  # noqa: BLE001
+                    ctx.oracle_error('C15 fresh interpreter (comparing what the child loaded)')
+                    ok = None
+                if ok is False:
+                    mon.viol('fresh_interpreter_result_differs', 'what load_xye returned as the first call of a fresh '
+                             'interpreter is not what was saved', dict(case, got={a: (b[:4] if isinstance(b, list) else b)
+                                                                                  for a, b in got.items()}),
+                             function='load_xye')
+                elif ok:
+                    ctx.hit('fresh_interpreter:load_xye')
+    finally:
+        env.end_case()
+        for p in tmpfiles:
+            if os.path.exists(p):
+                os.remove(p)
+    ctx.case(('fresh_interpreter',), trivial=False)
+
+
 def run_one(shard, k, env):
     ctx, mon = env.ctx, env.mon
     seed, index = int(shard['seed']), int(shard['index'])
     rng = np.random.Generator(np.random.PCG64([seed, index, k]))
     sched = shard.get('scheduled') or []
     spec = sched[k] if k < len(sched) else random_spec(rng)
-    mon.label = {'target': spec['target'], 'k': k}
+    mon.label = {'target': spec.get('target'), 'k': k}
     before = ctx.n_violations
     if spec['kind'] == 'stream':
         run_stream(shard, k, env, rng, spec)
@@ -2826,6 +3599,9 @@ def run_one(shard, k, env):
         return
     if spec['kind'] == 'second':
         run_second(shard, k, env, rng, spec)
+        return
+    if spec['kind'] in ('fs', 'unicode', 'fresh'):
+        {'fs': run_fs, 'unicode': run_unicode, 'fresh': run_fresh}[spec['kind']](shard, k, env, rng, spec)
         return
     if spec['kind'] == 'refuse':
         da, kw, parts = build_refuse(rng, spec['cls'])
@@ -3020,12 +3796,18 @@ def requirements(tier):
               + ['units_as:' + uf for uf in UNIT_FORMS]
               + ['dim_named:' + dn for dn in DIM_NAMES]
               + ['second_use:' + sub for sub in SECOND_USES]
+              + fs_requirements()
+              + ['rows:%d' % nr for nr in COINCIDING_ROWS]
+              + [f'unicode_name:{lab}:{mode}:{w}' for lab, _ in UNICODE_NAMES for mode in UNICODE_MODES
+                 for w in ('file', 'loaded')]
+              + ['fresh_interpreter:save_xye:stringio', 'fresh_interpreter:save_xye:path', 'fresh_interpreter:load_xye']
               + ['data_array_subclass', 'file_judged:data_array_subclass', 'rows:heavy', 'file_judged:rows_heavy',
                  'refuse:binned_data', 'refuse:binned_data_with_event_masks', 'refuse:binned_data_with_bin_masks'])
     return {'events': {'save_xye.file': 250 if q else 10000, 'load_xye.roundtrip': 250 if q else 10000,
                        'save_xye.refusal': 80 if q else 3000, '_deduce_coord': 60 if q else 2000,
                        '_generate_xye_header': 60 if q else 2000,
-                       'load_xye.roundtrip.generated_header_not_ascii': 40 if q else 400},
+                       'load_xye.roundtrip.generated_header_not_ascii': 40 if q else 400,
+                       'fresh_interpreter.call': 3},
             'forced': forced,
             'counters': {'out_of_domain:unknown_target_type': len(FOREIGN_TARGETS),
                          'out_of_domain:data_or_written_coordinate_not_plain_float64': 1}}
